@@ -575,9 +575,17 @@ def parseNetObs (s : String) : Option NetObs :=
   | [st, cl] => do pure { state := ← parsePairs st, calls := ← parseHooks cl }
   | _ => none
 
-def parseNetPhaseOut (s : String) : Option (List Result × List NetObs) :=
+/-- `<replica>:<cid>.<val><o|r|e>` -/
+def parseSentinel (s : String) : Option NetOp :=
+  match s.splitOn ":" with
+  | [r, f] => do
+    let (o, res) ← parseFiller f
+    pure { replica := ← r.toNat?, op := o, res := res }
+  | _ => none
+
+def parseNetPhaseOut (s : String) : Option (List Result × List NetOp × List NetObs) :=
   match s.splitOn "#" with
-  | r :: obs => do pure (← listOf parseRes r, ← obs.mapM parseNetObs)
+  | r :: sen :: obs => do pure (← listOf parseRes r, ← listOf parseSentinel sen, ← obs.mapM parseNetObs)
   | _ => none
 
 def answerNet (pre post : List String) : String :=
@@ -591,10 +599,10 @@ def answerNet (pre post : List String) : String :=
         | none => "bad-case net-script"
         | some phases =>
           if phases.length != outs.length || (phases.zip outs).any (fun p => p.1.length != p.2.1.length) ||
-             outs.any (fun o => o.2.length != n) then "bad-case net-shape" else
+             outs.any (fun o => o.2.2.length != n) then "bad-case net-shape" else
           let nphases : List (List NetOp) :=
-            (phases.zip outs).map (fun p => (p.1.zip p.2.1).map (fun q => NetOp.mk q.1.1 q.1.2 q.2))
-          let c : NetCase := NetCase.mk n trusts nphases (outs.map (·.2))
+            (phases.zip outs).map (fun p => (p.1.zip p.2.1).map (fun q => NetOp.mk q.1.1 q.1.2 q.2) ++ p.2.2.1)
+          let c : NetCase := NetCase.mk n trusts nphases (outs.map (·.2.2))
           let fl := failed (netClauses c)
           let nops := (phases.map List.length).foldl (· + ·) 0
           let arm := "net-r" ++ toString n ++ "-" ++ tag
